@@ -8,7 +8,7 @@ inlined helper / rewritten `try_for_each` are all the same thing.
 """
 from .common import *
 # helpers shared by the two modules of this owner (candidates for templates.py / common.py, see C13-NOTES.txt)
-from .C11 import reach_v, must_pass_v, Guard2, bool_guards, enum_tests, single_def, const_operand, plain_source, FLIP
+from .C11 import reach_v, must_pass_v, EnumProbes, single_def, const_operand, plain_source
 
 VIEW = 'norm'
 INST = 'v1::Instance'; DV = 'v1::DecisionVariable'; CON = 'v1::Constraint'
@@ -67,11 +67,11 @@ def slack_rules(ctx, name, convert):
     # NEW-VARIABLE idioms: decision_variables.push(dv) | .insert(i, dv) | .extend([dv]) (normal form: push)
     pushes = [c for c in body.calls if c.item in ('push', 'insert') and re.search(r'Vec::<v1::DecisionVariable>::(push|insert)', c.name)
               and ctx.S.slice_operand(body, c.args[0]).has_field(INST, 'decision_variables')]
-    ctx.check(len(pushes) == 1, R + '/vars/one-push', 'T-CARRY', body.name, 'expected one decision_variables.push, found %d' % len(pushes), body.site())
-    if len(pushes) != 1: return feats
-    push = pushes[0]
+    ctx.check(len(pushes) >= 1, R + '/vars/one-push', 'T-CARRY', body.name, 'no new decision variable is added (decision_variables.push)', body.site())
+    if not pushes: return feats
+    push_bbs = {c.bb for c in pushes}
 
-    def before_push(bb): return body.dominates(bb, push.bb)
+    def before_push(bb): return all(body.dominates(bb, pb) for pb in push_bbs)
     oks = body.strict_ok_exits()
     # ---- g1: constraint lookup by id; not found => error
     lk = lookup_loops(ctx, body)
@@ -85,7 +85,7 @@ def slack_rules(ctx, name, convert):
         r_none = reach_v(body, [none_bb])
         ctx.check(not (r_none & oks) and bool(r_none & body.err_exits()), R + '/guards/lookup/none-is-error', 'T-ERRFLOW', body.name, 'an unknown constraint id can reach an Ok-exit', body.site(nextc.bb))
         r_miss = reach_v(body, [miss], stop={header})
-        ctx.check(not (r_miss & oks) and push.bb not in r_miss, R + '/guards/lookup/miss-continues', 'T-LOOPMUST', body.name, 'a constraint with another id is accepted', body.site(tbb))
+        ctx.check(not (r_miss & oks) and not (push_bbs & r_miss), R + '/guards/lookup/miss-continues', 'T-LOOPMUST', body.name, 'a constraint with another id is accepted', body.site(tbb))
         ctx.check(before_push(header), R + '/guards/lookup/dominates', 'T-GUARD', body.name, 'lookup does not dominate the mutation', body.site(nextc.bb))
         feats['lookup'] = True
     else:
@@ -93,20 +93,24 @@ def slack_rules(ctx, name, convert):
             errflow_calls(ctx, R + '/guards/lookup/none-is-error', body, [c], 'constraint lookup')
             ctx.check(before_push(c.bb), R + '/guards/lookup/dominates', 'T-GUARD', body.name, 'lookup does not dominate the mutation', body.site(c.bb))
             feats['lookup'] = True
-    # ---- g2: must be an inequality  (ENUM-TEST idioms of C11.enum_tests: == / != / matches! / match / raw i32 compare)
-    eqt = enum_tests(ctx, body, 'v1::Equality', src_need=lambda s: s.has_field(CON, 'equality')) or []
-    okg = None
-    for sb, tab in eqt:
-        good = sorted({tg for n, tg in tab.items() if n == 'LessThanOrEqualToZero'}); bad = sorted({tg for n, tg in tab.items() if n != 'LessThanOrEqualToZero'})
-        g = Guard2(body, sb, good, bad); ctx.counters['cfg_paths'] += 1
-        # the other kinds must not reach the mutation either (the always-satisfied exit mutates through relax_constraint)
-        if not (set(good) & set(bad)) and g.requires() and before_push(sb): okg = g; break
-    if okg is not None:
-        ctx.ok(R + '/guards/is-inequality', 'T-GUARD', body.site(okg.switch_bb), shape=okg.describe())
-        ctx.check(okg.dominates_ok_exits(), R + '/guards/is-inequality/dominates', 'T-GUARD', body.name, 'equality test does not dominate the Ok-exits', body.site(okg.switch_bb))
-        feats['is-inequality'] = True
-    elif not eqt: ctx.bad(R + '/guards/is-inequality', 'T-GUARD', body.name, 'no test `constraint.equality() == LessThanOrEqualToZero` found', body.site())
-    else: ctx.bad(R + '/guards/is-inequality', 'T-GUARD', body.name, 'test `constraint.equality() == LessThanOrEqualToZero` does not guard the Ok-exits with the required polarity', body.site(eqt[0][0]))
+    # ---- g2: must be an inequality  (ENUM-TEST idioms of C11.EnumProbes: == / != / matches! / match / if let / raw i32 compare,
+    #          whatever consumes the outcome).  Stated per kind: assume constraint.equality() is V wherever the body inspects it
+    P = EnumProbes(ctx, body, 'v1::Equality', src_need=lambda s: s.has_field(CON, 'equality'))
+    if not P:
+        ctx.bad(R + '/guards/is-inequality', 'T-GUARD', body.name, 'no test `constraint.equality() == LessThanOrEqualToZero` found', body.site())
+    else:
+        leak = []; mut = []
+        for V in P.variants:
+            ctx.counters['cfg_paths'] += 1
+            r = P.reach(V, [0])
+            if V == 'LessThanOrEqualToZero':
+                if not (r & oks): leak.append('an inequality never succeeds')
+            else:
+                if (r & oks) or not (r & body.err_exits()): leak.append('%s can reach an Ok-exit' % V)
+                if r & push_bbs: mut.append(V)
+        ctx.check(not leak, R + '/guards/is-inequality', 'T-GUARD', body.name, 'test `constraint.equality() == LessThanOrEqualToZero` does not guard the Ok-exits: %s' % '; '.join(leak), P.site())
+        ctx.check(not mut, R + '/guards/is-inequality/dominates', 'T-GUARD', body.name, 'the mutation is reachable for %s' % mut, P.site())
+        if not leak and not mut: feats['is-inequality'] = True
     # ---- g3: function present.  OPTION-TEST idioms on constraint.function:
     #        .as_ref()/.as_mut()/.clone() + (with_context|context|ok_or..)? | let Some(f) = &c.function else { bail } | match c.function { None => return Err }
     fcands = []        # (bb, how, None-is-error?)
@@ -151,18 +155,17 @@ def slack_rules(ctx, name, convert):
         # outcome per kind: assume the kind is V (every test on this kind — matches!, match, == chains — decided accordingly):
         # does the item pass (back to the loop header) or end in an Err-exit?
         kadt = ctx.F.adt('v1::decision_variable::Kind')
-        tests = [(sb, tab) for sb, tab in (enum_tests(ctx, body, 'v1::decision_variable::Kind', src_need=lambda s: c in s.call_objs) or []) if sb in blocks]
-        ctx.check(bool(tests) and kadt is not None, R + '/guards/kinds/match', 'T-TABLE', body.name, 'no test of the variable kind in the loop', body.site(nextc.bb))
-        if tests and kadt is not None:
+        KP = EnumProbes(ctx, body, 'v1::decision_variable::Kind', src_need=lambda s: c in s.call_objs, blocks=blocks)
+        ctx.check(bool(KP) and kadt is not None, R + '/guards/kinds/match', 'T-TABLE', body.name, 'no test of the variable kind in the loop', body.site(nextc.bb))
+        if KP and kadt is not None:
             errs = body.err_exits(); table = {}
             for v in kadt['variants']:
-                forced = {sb: tab[v['name']] for sb, tab in tests}
                 hits = set(); ctx.counters['cfg_paths'] += 1
-                r = reach_v(body, [c.target], {c.dst['l']: 'Option::Some'}, stop={header}, forced=forced, hits=hits)
+                r = KP.reach(v['name'], [c.target], {c.dst['l']: 'Option::Some'}, stop={header}, hits=hits)
                 cont = header in hits; err = bool(r & errs)
                 table[v['name']] = 'continue' if cont and not err and not (r & oks) else ('error' if err and not cont and not (r & oks) else 'mixed')
             want = {v['name']: ('continue' if v['name'] in ALLOWED_KINDS else 'error') for v in kadt['variants']}
-            ctx.check(table == want, R + '/guards/kinds/table', 'T-TABLE', body.name, 'kind table is %s, expected %s' % (table, want), body.site(tests[0][0]))
+            ctx.check(table == want, R + '/guards/kinds/table', 'T-TABLE', body.name, 'kind table is %s, expected %s' % (table, want), KP.site())
             feats['kinds'] = tuple(sorted(table.items()))
     # ---- g5 / g6: interval tests
     infeasible = None; always = None
@@ -188,7 +191,7 @@ def slack_rules(ctx, name, convert):
     if infeasible:
         bi, g = infeasible
         r = reach_v(body, [g.true_bb])
-        ctx.check(not (r & body.strict_ok_exits()) and bool(r & body.err_exits()) and push.bb not in r, R + '/guards/infeasible/is-error', 'T-GUARD', body.name,
+        ctx.check(not (r & body.strict_ok_exits()) and bool(r & body.err_exits()) and not (push_bbs & r), R + '/guards/infeasible/is-error', 'T-GUARD', body.name,
                   '`lower > 0` does not lead to an error before any mutation', body.site(bi))
         agg = [b2 for b2, st2 in body.stmts() if b2 in r and st2['rv']['k'] == 'agg' and 'InfeasibleDetected::InequalityConstraintBound' in st2['rv']['adt']]
         ctx.check(bool(agg), R + '/guards/infeasible/typed', 'T-GUARD', body.name, 'the error is not InfeasibleDetected::InequalityConstraintBound', body.site(bi))
@@ -199,13 +202,13 @@ def slack_rules(ctx, name, convert):
         bi, g = always
         r = reach_v(body, [g.true_bb])
         relax = [c for c in body.calls if c.bb in r and c.item == 'relax_constraint' and c.path.endswith('relax_constraint')]
-        ctx.check(bool(relax) and push.bb not in r and bool(r & body.strict_ok_exits()), R + '/guards/always/relax-and-return', 'T-BRANCHFX', body.name,
+        ctx.check(bool(relax) and not (push_bbs & r) and bool(r & body.strict_ok_exits()), R + '/guards/always/relax-and-return', 'T-BRANCHFX', body.name,
                   '`upper <= 0` does not relax the constraint and return without a new variable', body.site(bi))
         for c in relax:
             ctx.check(c.args[1]['k'] in ('copy', 'move') and T.access_path(body, c.args[1])[1] == 2, R + '/guards/always/relax-same-id', 'T-CARRY', body.name, 'relax_constraint is not called with the given id', body.site(c.bb))
             errflow_calls(ctx, R + '/guards/always/relax-error', body, [c], 'relax_constraint result')
         fr = reach_v(body, [g.false_bb])
-        ctx.check(push.bb in fr, R + '/guards/always/else-continues', 'T-BRANCHFX', body.name, 'the other side never reaches the slack construction', body.site(bi))
+        ctx.check(bool(push_bbs & fr), R + '/guards/always/else-continues', 'T-BRANCHFX', body.name, 'the other side never reaches the slack construction', body.site(bi))
         ctx.check(before_push(bi), R + '/guards/always/dominates', 'T-GUARD', body.name, 'test does not dominate the mutation', body.site(bi))
         # no write to the constraint function on the relaxed path
         fw = [b2 for b2, st2 in body.stmts() if b2 in r and st2['dst']['p'] and (CON, 'function') in [(a, f) for a, f in fields_of_place(st2['dst'])]]
@@ -229,46 +232,92 @@ def slack_rules(ctx, name, convert):
     sites = T.check_atomic(body, ctx.S, ctx.F, atomic_callees=('relax_constraint',))
     late = [(what, bi, badexits) for what, bi, badexits in sites if badexits]
     ctx.check(not late, R + '/atomic', 'T-ATOMIC', body.name, 'an Err-exit (bb%s) is reachable after mutation `%s`' % (late[0][2], late[0][0]) if late else '', body.site(late[0][1]) if late else body.site(), sites=len(sites))
-    # ---- the slack variable
-    aggs = find_aggregates(body, DV)
-    ctx.check(len(aggs) == 1, R + '/vars/one-aggregate', 'T-CARRY', body.name, 'expected one DecisionVariable aggregate, found %d' % len(aggs), body.site())
-    for bi, st in aggs:
-        ks = carry_field(ctx, R + '/vars/kind-integer', body, st, 'kind', need_consts=[r'Kind::Integer'], site=body.site(bi))
-        ids = fresh_id_rule(ctx, R + '/vars/fresh-id', body, agg_field_operand(st, 'id'), 'slack variable id')
-        carry_field(ctx, R + '/vars/subscripts', body, st, 'subscripts', need_params=[2], site=body.site(bi))
-        bs = slice_op(ctx, body, agg_field_operand(st, 'bound'))
+    # ---- the slack variable: the value handed to decision_variables.push.  STRUCT-BUILD idioms: a struct literal (with or
+    #      without `..Default::default()`) | `let mut dv = DecisionVariable::default(); dv.id = ..; dv.kind = ..;` (field assignments)
+    dvs = pushed_structs(body, pushes)
+    ctx.check(bool(dvs), R + '/vars/one-aggregate', 'T-CARRY', body.name, 'the pushed decision variable is not built in this function', body.site())
+    def field_ops(field):
+        out = []
+        for roots, agg in dvs:
+            ops = []
+            if agg is not None and agg_field_operand(agg, field) is not None: ops.append(agg_field_operand(agg, field))
+            for bi, st in body.stmts():
+                d = st['dst']
+                if d['l'] in roots and d['p'] and fields_of_place(d)[:1] == [(DV, field)] or (d['l'] in roots and d['p'] and fields_of_place(d)[:1] and fields_of_place(d)[0][1] == field and fields_of_place(d)[0][0].endswith(DV)):
+                    if st['rv'].get('ops'): ops = [st['rv']['ops'][0]]          # an assignment after the literal overrides it
+            out.append(ops)
+        return out
+    def field_rule(rule, field, what, pred):
+        fo = field_ops(field)
+        okk = bool(fo) and all(ops and all(pred(ctx.S.slice_operand(body, o)) for o in ops) for ops in fo)
+        ctx.counters['slices'] += 1
+        ctx.check(okk, rule, 'T-CARRY', body.name, what, body.site(pushes[0].bb))
+        return fo
+    if dvs:
+        field_rule(R + '/vars/kind-integer', 'kind', 'field `kind` does not depend on: const ~ Kind::Integer', lambda sl_: sl_.has_const(r'Kind::Integer'))
+        ido = field_ops('id')
+        idop = ido[0][0] if ido and ido[0] else None
+        if idop is not None: fresh_id_rule(ctx, R + '/vars/fresh-id', body, idop, 'slack variable id')
+        else: ctx.bad(R + '/vars/fresh-id', 'T-CARRY', body.name, 'slack variable id is never set', body.site(pushes[0].bb))
+        field_rule(R + '/vars/subscripts', 'subscripts', 'field `subscripts` does not depend on: parameter _2', lambda sl_: 2 in sl_.params)
+        bo = field_ops('bound')
+        bop = bo[0][0] if bo and bo[0] else None
+        bs = slice_op(ctx, body, bop) if bop is not None else None
         if convert:
             okb = False
-            for c in bs.call_objs:
+            for c in (bs.call_objs if bs else ()):
                 if c.item == 'new' and c.path.endswith('Bound::new'):
                     k0 = const_operand(body, c.args[0])
                     lo0 = k0 is not None and T.f64_const(k0['v']) == 0.0
                     s1 = ctx.S.slice_operand(body, c.args[1])
                     sign, nums, dens = ratio(T.expr(body, c.args[1]))
                     neg_lower = sign == -1 and len(nums) == 1 and not dens and is_bound_call(nums[0], 'lower')
-                    okb = lo0 and neg_lower and s1.has_call('as_integer_bound') and s1.has_call('evaluate_bound')
-            ctx.check(okb, R + '/vars/bound', 'T-CARRY', body.name, 'slack bound is not Bound::new(0, -lower) of the integer bound of a*f', body.site(bi))
+                    okb = okb or (lo0 and neg_lower and s1.has_call('as_integer_bound') and s1.has_call('evaluate_bound'))
+            ctx.check(okb, R + '/vars/bound', 'T-CARRY', body.name, 'slack bound is not Bound::new(0, -lower) of the integer bound of a*f', body.site(pushes[0].bb))
         else:
             okb = False
+            # v1::Bound { lower: 0.0, upper: slack_upper_bound as f64 }  |  Bound::new(0.0, ub) converted with .into()
+            cands = []
             for b2, st2 in find_aggregates(body, 'v1::Bound'):
-                if st2['dst']['l'] in bs.locals:
-                    d = dict(zip(st2['rv']['fields'], st2['rv']['ops']))
-                    k0 = const_operand(body, d['lower'])
-                    lo0 = k0 is not None and T.f64_const(k0['v']) == 0.0
-                    up = ctx.S.slice_operand(body, d['upper'])
-                    okb = lo0 and 3 in up.params and not up.has_call('evaluate_bound')
-            ctx.check(okb, R + '/vars/bound', 'T-CARRY', body.name, 'slack bound is not [0, slack_upper_bound]', body.site(bi))
-    # ---- coefficient and the rewritten function
-    fw = [(bi, st) for bi, st in body.stmts() if st['dst']['p'] and (CON, 'function') in fields_of_place(st['dst'])]
-    ctx.check(len(fw) == 1, R + '/coef/one-write', 'T-CARRY', body.name, 'expected one write to constraint.function, found %d' % len(fw), body.site())
-    for bi, st in fw:
-        s = ctx.S.slice_operand(body, st['rv']['ops'][0])
+                if bs and st2['dst']['l'] in bs.locals:
+                    d = dict(zip(st2['rv']['fields'], st2['rv']['ops'])); cands.append((d['lower'], d['upper']))
+            for c in (bs.call_objs if bs else ()):
+                if c.item == 'new' and c.path.endswith('Bound::new') and len(c.args) == 2: cands.append((c.args[0], c.args[1]))
+            for lo_, up_ in cands:
+                k0 = const_operand(body, lo_)
+                lo0 = k0 is not None and T.f64_const(k0['v']) == 0.0
+                up = ctx.S.slice_operand(body, up_)
+                okb = okb or (lo0 and 3 in up.params and not up.has_call('evaluate_bound'))
+            ctx.check(okb, R + '/vars/bound', 'T-CARRY', body.name, 'slack bound is not [0, slack_upper_bound]', body.site(pushes[0].bb))
+    else:
+        idop = None
+    # ---- coefficient and the rewritten function.  FUNCTION-WRITE idioms: `constraint.function = Some(g)` |
+    #      constraint.function.replace(g) / .insert(g) | `*constraint.function.as_mut()? = g` is not recognised
+    fw = []          # (bb, operand holding the new function)
+    for bi, st in body.stmts():
+        if st['dst']['p'] and (CON, 'function') in fields_of_place(st['dst']) and st['rv'].get('ops'): fw.append((bi, st['rv']['ops'][0]))
+    for c in body.calls:
+        if c.item in ('replace', 'insert', 'get_or_insert') and 'Option::<v1::Function>' in c.name and len(c.args) == 2 and (CON, 'function') in T.access_path(body, c.args[0])[0]:
+            fw.append((c.bb, c.args[1]))
+    ctx.check(len(fw) >= 1, R + '/coef/one-write', 'T-CARRY', body.name, 'constraint.function is never rewritten', body.site())
+    ADD_RE = r'ops::Add(<v1::(Linear|Function)>)? for v1::(Function|Linear)>::add|Function as std::ops::Add|ops::AddAssign<v1::Linear> for v1::Function'
+    for bi, op_new in fw[:1]:
+        allw = [ctx.S.slice_operand(body, o) for b_, o in fw]
+        s = allw[0]
+        # SLACK-TERM idioms: Linear::single_term(id, coef) (decided precisely) | Linear::new([(id, coef)], 0.0) (sources only)
         st_calls = [c for c in s.call_objs if c.item == 'single_term' and c.path.endswith('Linear>::single_term')]
-        ctx.check(len(st_calls) == 1 and s.has_call(r'ops::Add<v1::Linear> for v1::Function>::add|Function as std::ops::Add'), R + '/coef/f-plus-slack-term', 'T-CARRY', body.name,
-                  'new function is not `f + single_term(slack id, coefficient)`', body.site(bi))
-        ctx.check(s.has_field(CON, 'function'), R + '/coef/keeps-f', 'T-CARRY', body.name, 'new function does not contain the old one', body.site(bi))
+        new_calls = [c for c in s.call_objs if c.item == 'new' and c.path.endswith('Linear>::new')]
+        ctx.check(all(len([c for c in w.call_objs if (c.item == 'single_term' and c.path.endswith('Linear>::single_term')) or (c.item == 'new' and c.path.endswith('Linear>::new'))]) == 1 and w.has_call(ADD_RE) for w in allw),
+                  R + '/coef/f-plus-slack-term', 'T-CARRY', body.name, 'new function is not `f + (one linear slack term)`', body.site(bi))
+        ctx.check(all(w.has_field(CON, 'function') for w in allw), R + '/coef/keeps-f', 'T-CARRY', body.name, 'new function does not contain the old one', body.site(bi))
+        if not st_calls and new_calls:
+            c = new_calls[0]; ts = ctx.S.slice_operand(body, c.args[0])
+            idl = (plain_source(body, idop) or set()) if idop else set()
+            weak = bool(idl & ts.locals) and (ts.has_call(r'impl v1::Function>::content_factor') if convert else (ts.has_call(r'bound::Bound::lower') and 3 in ts.params))
+            ctx.check(weak, R + '/coef/slack-term-sources', 'T-CARRY', body.name, 'the slack term is not made of the new id and the coefficient sources', body.site(c.bb))
+            for leaf in ('slack-id', 'one-over-a' if convert else 'minus-lower-over-upper') + (() if convert else ('returned',)):
+                ctx.undecided(R + '/coef/' + leaf, 'T-CARRY', body.site(c.bb), 'slack term built with Linear::new: operands not separated; sources are decided by /coef/slack-term-sources')
         for c in st_calls:
-            idop = agg_field_operand(aggs[0][1], 'id') if aggs else None
             same_id = bool(idop) and bool((plain_source(body, idop) or set()) & (plain_source(body, c.args[0]) or set()))
             ctx.check(same_id, R + '/coef/slack-id', 'T-CARRY', body.name, 'the slack term does not use the new variable id', body.site(c.bb))
             co = c.args[1]
@@ -296,7 +345,7 @@ def slack_rules(ctx, name, convert):
                 ctx.check(okr, R + '/coef/returned', 'T-CARRY', body.name, 'the returned coefficient is not the one used in the slack term', body.site(bi))
     if convert:
         # SET-EQUALITY idioms: constraint.set_equality(Equality::EqualToZero) | constraint.equality = Equality::EqualToZero as i32
-        def covers_ok_exits(bb): return all(body.dominates(bb, e) or e not in body.reach([push.bb]) for e in body.strict_ok_exits())
+        def covers_ok_exits(bb): return all(body.dominates(bb, e) or e not in body.reach(sorted(push_bbs)) for e in body.strict_ok_exits())
         okk = False
         for c in body.calls:
             if c.item == 'set_equality' and len(c.args) == 2:
@@ -311,6 +360,21 @@ def slack_rules(ctx, name, convert):
         ctx.check(not eqw and not [c for c in body.calls if c.item == 'set_equality'], R + '/coef/equality-untouched', 'T-BRANCHFX', body.name, 'equality kind is modified', body.site())
     writes_only(ctx, R + '/only', body, {'decision_variables', 'constraints', 'removed_constraints'})
     return feats
+
+
+def pushed_structs(body, pushes):
+    """for every push: (locals holding the struct before the push — plain copy chain, aggregate statement or None)"""
+    out = []
+    for c in pushes:
+        o = c.args[-1]
+        roots = plain_source(body, o) or set()
+        agg = None
+        for l in roots:
+            for k, bi, d in body.defs_of(l):
+                if k == 'stmt' and not d['dst']['p'] and d['rv']['k'] == 'agg' and d['rv']['adt'].endswith(DV): agg = d
+        built = agg is not None or any(k == 'call' and (d.get('ri') or {}).get('item') in ('default', 'new', 'clone') for l in roots for k, bi, d in body.defs_of(l))
+        if built: out.append((roots, agg))
+    return out
 
 
 def ratio(e):
